@@ -216,6 +216,14 @@ def run(scenario, tape_values):
     finally:
         for lg, h in loggers_touched:
             lg.removeHandler(h)
+    # a record is a snapshot: what it carries must not change after the write has been applied
+    # (handlers that format on flush, stored records inspected later)
+    for lg, h in loggers_touched:
+        for rec in h.records:
+            late = h.snapshot(rec)
+            if late != rec._verif_snapshot:
+                V("C16/record-not-a-snapshot", "the record emitted at seq %d carried %r when it was emitted and %r when read again after the write" % (rec._verif_seq, rec._verif_snapshot, late))
+                break
     # -- log records -----------------------------------------------------------
     ev = world.events
     # state of the pool before each pool write
